@@ -117,7 +117,10 @@ OnEvClose(m, ev) ==
       \* transport write, an item that could not be encoded (C13 allows closing then) - never because of what was fed
       caused == marks # {} \/ ev.ep \in DOMAIN m.wfault \/ ev.ep \in DOMAIN m.blockedAt
                 \/ \E i \in 1..Len(m.calls) : m.calls[i].bad # ""
-      m2 == Check(m2a, "C10.close_event_has_a_cause", m.closing \/ m.kinds[ev.ep + 1] # "custom" \/ caused, ev)
+      \* a connection the scenario keeps feeding (conf.idle_active) has no reason to close either, whatever its transport
+      keptActive == \E i \in 1..Len(m.conf.idle_active) : m.conf.idle_active[i] = <<ev.ep, ev.inst>>
+      m2 == Check(m2a, "C10.close_event_has_a_cause",
+                  m.closing \/ caused \/ (m.kinds[ev.ep + 1] # "custom" /\ ~keptActive), ev)
       cq == Get(m.causes, pk, <<>>)
       \* custom transports: the very error the transport returned (the harness injects plain, deadline, EOF, closed ... errors)
       m3 == Check(m2, "C14.close_event_carries_the_cause",
